@@ -3,9 +3,11 @@ package harness
 import (
 	"context"
 	"fmt"
+	"sync"
 	"testing"
 
 	"github.com/mark3labs/flyt"
+	"pgregory.net/rapid"
 )
 
 // C07 — batch processes every item exactly once, with per-item retry and fallback.
@@ -321,6 +323,109 @@ func TestC07(t *testing.T) {
 	g2.Gated = 0
 	g2.Waits = true
 	rapidPart(r, "rand-ungated", r.pick(1000, 15000), g2.gen, checkC07)
+	rapidPart(r, "equal-payloads", r.pick(800, 20000), genC07Dup, checkC07Dup)
 }
 
-func init() { registerReplay("C07", checkC07) }
+func init() {
+	registerReplay("C07", checkC07)
+	registerReplaySub("C07", "equal-payloads", checkC07Dup)
+}
+
+// ---- items with EQUAL payloads are still separate items (each executed once, each its own slot)
+
+type C07Dup struct {
+	Vals []int `json:"vals"` // item i carries payload kind(Vals[i]); equal numbers = equal payloads
+	C    int   `json:"c"`
+	Kind int   `json:"kind"` // 0 int, 1 string, 2 bool, 3 float64, 4 nil
+}
+
+func (c *C07Dup) payload(i int) any {
+	v := c.Vals[i]
+	switch c.Kind {
+	case 1:
+		return fmt.Sprintf("s%d", v)
+	case 2:
+		return v%2 == 0
+	case 3:
+		return float64(v) / 2
+	case 4:
+		return nil
+	}
+	return v
+}
+
+func checkC07Dup(t *testing.T, c C07Dup) Verdict {
+	n := len(c.Vals)
+	var mu sync.Mutex
+	calls := 0
+	var postItems, postRes []flyt.Result
+	postCalls := 0
+	var runErr error
+	fail := Bubble(t, func() {
+		b := flyt.NewBatchNode().WithBatchConcurrency(c.C)
+		b = b.WithPrepFunc(func(ctx context.Context, s *flyt.SharedStore) ([]flyt.Result, error) {
+			items := make([]flyt.Result, n)
+			for i := range items {
+				items[i] = flyt.NewResult(c.payload(i))
+			}
+			return items, nil
+		})
+		b = b.WithExecFunc(func(ctx context.Context, item flyt.Result) (flyt.Result, error) {
+			mu.Lock()
+			calls++
+			k := calls
+			mu.Unlock()
+			return flyt.NewResult(fmt.Sprintf("call#%d(%v)", k, item.Value())), nil // every call yields a distinct value
+		})
+		b = b.WithPostFunc(func(ctx context.Context, s *flyt.SharedStore, items, results []flyt.Result) (flyt.Action, error) {
+			mu.Lock()
+			postCalls++
+			postItems, postRes = append([]flyt.Result(nil), items...), append([]flyt.Result(nil), results...)
+			mu.Unlock()
+			return "done", nil
+		})
+		_, runErr = flyt.Run(context.Background(), b, flyt.NewSharedStore())
+	})
+	if fail != "" && !goroutinesRemain(fail) {
+		return bad("C07:bubble", "%s", fail)
+	}
+	if runErr != nil || postCalls != 1 {
+		return bad("C07:dup-run", "batch of %d items with equal payloads: run error %v, post called %d times", n, runErr, postCalls)
+	}
+	if calls != n {
+		return bad("C07:dup-items-merged", "%d items (payloads %v, kind %d, concurrency %d): exec was called %d times - items with equal payloads are still separate items", n, c.Vals, c.Kind, c.C, calls)
+	}
+	if len(postItems) != n || len(postRes) != n {
+		return bad("C07:dup-len", "post received %d items / %d results for %d items", len(postItems), len(postRes), n)
+	}
+	seen := map[any]int{}
+	for i, r := range postRes {
+		if r.IsError() {
+			return bad("C07:dup-slot", "slot %d is an error although every execution succeeded: %v", i, r.Error())
+		}
+		if j, dup := seen[r.Value()]; dup {
+			return bad("C07:dup-outcome-shared", "slots %d and %d hold the same execution's outcome %v (payloads %v)", j, i, r.Value(), c.Vals)
+		}
+		seen[r.Value()] = i
+		if !deepEq(postItems[i].Value(), c.payload(i)) {
+			return bad("C07:dup-items", "post item %d is %#v, prep produced %#v", i, postItems[i].Value(), c.payload(i))
+		}
+	}
+	dups := n - len(map[int]bool(func() map[int]bool {
+		m := map[int]bool{}
+		for _, v := range c.Vals {
+			m[v] = true
+		}
+		return m
+	}()))
+	return ok(dups > 0 && n >= 2, fmt.Sprintf("equal-payloads-kind%d", c.Kind))
+}
+
+func genC07Dup(rt *rapid.T) C07Dup {
+	c := C07Dup{C: rapid.IntRange(0, 4).Draw(rt, "c"), Kind: rapid.IntRange(0, 4).Draw(rt, "kind")}
+	n := rapid.IntRange(0, 12).Draw(rt, "n")
+	for i := 0; i < n; i++ {
+		c.Vals = append(c.Vals, rapid.IntRange(0, 3).Draw(rt, "v"))
+	}
+	return c
+}
